@@ -108,8 +108,11 @@ func (s *Scenario) NewExec() *Exec {
 			w.Acct(n)
 		}
 	}
-	e := &Exec{W: w, Tracked: tr, Aux: map[string]int{}, AfterTx: s.AfterTx, Annotate: s.Annotate}
+	e := &Exec{W: w, Tracked: tr, Aux: map[string]int{}, AfterTx: s.AfterTx, Annotate: s.Annotate, Visit: s.Visit}
 	e.M = InitModel(w, tr)
+	if e.Visit != nil {
+		e.InitDiscs = e.Visit(e)
+	}
 	return e
 }
 
@@ -260,9 +263,7 @@ func (s *Scenario) Explore(opt Options) (Stats, []Violation) {
 			return st, viols
 		}
 	}
-	if s.Visit != nil {
-		classify(names(rootPath), s.Visit(root), nil)
-	}
+	classify(nil, root.InitDiscs, nil)
 	rk := root.Key(s.KeyTimeNs)
 	seen := map[[32]byte]bool{rk: true}
 	frontier := []*node{{path: rootPath, snap: root.W.Snapshot(), m: root.M.Clone(), aux: cloneAux(root.Aux), key: rk}}
@@ -314,9 +315,6 @@ func (s *Scenario) Explore(opt Options) (Stats, []Violation) {
 					obs, discs := e.Run(&s.Actions[j.act], true)
 					r := result{job: j, obs: obs, discs: discs}
 					if !obs.Halted {
-						if s.Visit != nil && !obs.Diverged {
-							r.discs = append(r.discs, s.Visit(e)...)
-						}
 						r.key = e.Key(s.KeyTimeNs)
 						r.snap = e.W.Snapshot()
 						r.m = e.M
@@ -468,9 +466,6 @@ func (s *Scenario) ReplayNames(path []string) ([]StepObs, [][]Disc) {
 	var ds [][]Disc
 	for _, n := range path {
 		obs, d := e.Run(s.action(n), true)
-		if s.Visit != nil && !obs.Halted && !obs.Diverged {
-			d = append(d, s.Visit(e)...)
-		}
 		obsv = append(obsv, obs)
 		ds = append(ds, d)
 		if obs.Halted || obs.Diverged {
